@@ -257,6 +257,8 @@ def _equiv_render(b, root, base=None):
                 if p.get('ignore') and r.random() < 0.7:
                     rd['ignored_values'][p.get('nic') or p['name']] = r.choice(p['pool'])
     if r.random() < 0.5:
+        rd['obj_var'] = r.randint(1, 10**6)
+    if r.random() < 0.5:
         rd['global_vars'] = {'VA': r.choice(['/data', 'alpha', '']), 'VB': r.choice(['beta', '/x/y', '7'])}
         if r.random() < 0.3:
             rd['global_vars']['VC'] = 'gamma'
